@@ -363,8 +363,8 @@ func ruleC02Protocol(c *ctx.Ctx, r *core.Reporter) {
 	}
 	r.Check(okSame, "protocol:same-case-number", c.Pos(proto.Pos), "`$s = N` and `case N:` use the same format argument")
 	// the case counter is advanced for every blocking call
-	src := nodeString(c, blk.Body)
-	r.Check(strings.Contains(src, "resumeCase := fc.caseCounter") && strings.Contains(src, "fc.caseCounter++"), "protocol:fresh-case", c.Pos(blk.Pos()), "each blocking call takes a fresh case number")
+	_ = nodeString
+	r.Check(hasGoPattern(blk, `µcase := µfc.caseCounter; µfc.caseCounter++`), "protocol:fresh-case", c.Pos(blk.Pos()), "each blocking call takes a fresh case number")
 	// a return whose deferred calls may suspend is replayed on resumption (`case N: return v`): whatever it
 	// returns must have been computed once, before the deferred calls ran, and saved in the frame
 	if ts := c.FuncDecl("compiler", "funcContext.translateStmt"); ts != nil {
@@ -491,8 +491,22 @@ func ruleC02Flatten(c *ctx.Ctx, r *core.Reporter) {
 		r.Undecided("markBlocking", analysisPkg, "not found")
 		return
 	}
-	src := squash(nodeString(c, mb.Body))
-	r.Check(strings.Contains(src, "for_,n:=rangestack{fi.Blocking[n]=truefi.Flattened[n]=true}"), "markBlocking:both-maps-whole-stack", c.Pos(mb.Pos()), "markBlocking sets Blocking and Flattened for every node of the given stack")
+	_ = squash
+	r.Check(func() bool {
+		// for _, n := range <the parameter> { fi.Blocking[n] = true; fi.Flattened[n] = true } (either order)
+		param := ""
+		if ps := mb.Type.Params.List; len(ps) == 1 && len(ps[0].Names) == 1 {
+			param = ps[0].Names[0].Name
+		}
+		for _, p := range []string{`for _, µn := range µs { µfi.Blocking[µn] = true; µfi.Flattened[µn] = true }`, `for _, µn := range µs { µfi.Flattened[µn] = true; µfi.Blocking[µn] = true }`} {
+			for _, m := range findGoPattern(mb.Body, p) {
+				if m.Env["µs"] == param && param != "" {
+					return true
+				}
+			}
+		}
+		return false
+	}(), "markBlocking:both-maps-whole-stack", c.Pos(mb.Pos()), "markBlocking sets Blocking and Flattened for every node of the given stack")
 	// writers of Blocking in package analysis
 	p := c.Pkg(analysisPkg)
 	for _, fd := range c.AllFuncDecls(analysisPkg) {
